@@ -22,13 +22,32 @@
      noauth_slash_path u  no authority, no marker, the path starts with '/'
      host_disp_ok hd h    the text hd h matches the kind of h: empty for the empty host, otherwise
                           non-empty and not starting with ':' / '@'
+     host_fns_ok hp hpo hd   every host returned by Host::parse (hp) / Host::parse_opaque (hpo) satisfies host_disp_ok hd,
+                          and the empty host is displayed as nothing (follows from C03's HostWf: C06_host_fns)
+     set_host_arg_text x  the text Url::set_host hands to the host parser: a bracketed argument whole, otherwise
+                          the text in front of the first ':' (None when the argument starts with ':')
+     host_set_post dbg hd u u' h   u' satisfies wf_b and host_text_ok; scheme, username, password, port, path, query,
+                          fragment read as in u; host_str u' = the display of h (None for the empty host);
+                          host kind = kind of h
+     host_port_post dbg hd u u' h np   the same with port u' = np instead of port u' = port u
+     q_host_port sch rem  what the text behind the host says about the port in quirks::set_host: None = nothing
+                          usable (the old port stays), Some p = parse_port (setter context) returned p
+     stype u              scheme_type_of (the scheme text of u): the scheme type the parser works with
+     plainc sp c          c is not TAB/LF/CR, not '@', not '/', '?', '#' (nor '\' when sp: special scheme) - the
+                          characters the first pass of parse_userinfo walks over (C02_AuthParts.v)
+     hostc sp c           c is not TAB/LF/CR, none of ':' '/' '?' '#' '[' ']' (nor '\' when sp)
+     qh_tail X / h_tail X / pe_ok X / host_tail sp X   the rest of the input X is empty or starts with '?' or '#' / with '#' /
+                          with a path delimiter / with a character at which the host scan stops
+     after_hash X         None for the empty X, otherwise what follows its first character
+     pw_text pw           ':' pw for Some pw, nothing for None
+     clean S t            every byte of t is kept (not percent-encoded) by the encode set S (C02_Enc.v)
    All theorems are for both build configurations (dbg) and for arbitrary host functions. *)
 From RU Require Import Base.Prelude Base.Utf8 Model.AsciiSet Gen.Tables Model.PercentEncoding
   Model.HostT Model.UrlRecord Model.Parser Model.Setters Model.WF
-  Proofs.ListN Proofs.C03_WF Proofs.C06_List Proofs.C06_WFI Proofs.C06_Tail Proofs.C06_Steps Proofs.C06_Suffix
+  Proofs.ListN Proofs.C14_Set Proofs.C02_Enc Proofs.C02_AuthParts Proofs.C03_WF Proofs.C06_List Proofs.C06_WFI Proofs.C06_Tail Proofs.C06_Steps Proofs.C06_Suffix
   Proofs.C06_Front Proofs.C06_Atomic Proofs.C06_FragQuery Proofs.C06_Port Proofs.C06_Cred Proofs.C06_Scheme
   Proofs.C06_HostNone Proofs.C06_Host Proofs.C06_PathParser Proofs.C06_Path Proofs.C06_Segments Proofs.C06_PathNoAuth Proofs.C06_Main
-  Proofs.C06_PathMore.
+  Proofs.C06_PathMore Proofs.C03_ReachParts Proofs.C06_Quirks Proofs.C06_Agree Proofs.C06_AgreeSet.
 
 (* 1. a mutator that reports failure returns the record unchanged (hence as_str() byte for byte).
    No premise at all: every record, every argument, all thirteen status-returning mutators. *)
@@ -403,3 +422,303 @@ Proof.
   split; (split; [vm_compute; reflexivity|]); intros H; vm_compute in H |- *; try discriminate.
   split; [reflexivity|]. split; reflexivity.
 Qed.
+
+(* 13. Url::set_host(Some x) with the host the code parses made explicit (C06_frame / C06_get only say
+   "exists h", under a hypothesis on ALL hosts): the argument text goes through set_host_arg_text, the host
+   parser of the scheme type returns h, and - outside F-C02-4 (empty host on a URL with a port) and F-C03-5
+   (marker), both refuted by witnesses in C06_known_refuted - the result satisfies the invariant, reads back
+   the display of h as its host and leaves every other component as it was. *)
+Theorem C06_set_host_some : forall dbg hp hpo hd u x u', host_fns_ok hp hpo hd -> wfh u ->
+  (has_authority_b u = false -> path_start u = scheme_end u + 1) ->
+  set_host dbg hp hpo hd u (Some x) = Some (u', SOk) ->
+  exists sch t h, scheme u = Some sch /\ set_host_arg_text x = Some t
+    /\ (if st_is_special (scheme_type_of sch) then hp t else hpo t) = Ok h
+    /\ ((has_authority_b u = true -> hi_of_host h = HI_None -> port u = None) -> host_set_post dbg hd u u' h).
+Proof. intros dbg hp hpo hd u x u' HF [W _]. exact (set_host_some_post dbg hp hpo hd HF u x u' W). Qed.
+Check C06_set_host_some : forall dbg hp hpo hd u x u', host_fns_ok hp hpo hd -> wfh u ->
+  (has_authority_b u = false -> path_start u = scheme_end u + 1) ->
+  set_host dbg hp hpo hd u (Some x) = Some (u', SOk) ->
+  exists sch t h, scheme u = Some sch /\ set_host_arg_text x = Some t
+    /\ (if st_is_special (scheme_type_of sch) then hp t else hpo t) = Ok h
+    /\ ((has_authority_b u = true -> hi_of_host h = HI_None -> port u = None) -> host_set_post dbg hd u u' h).
+Print Assumptions C06_set_host_some.
+
+(* the hypothesis on the host functions follows from C03's HostWf (hence from C02's HostRT / HostOK, and it
+   is what C09_host_model_ok establishes for the host model) *)
+Theorem C06_host_fns : forall hp hpo hd, HostWf hp hpo hd -> host_fns_ok hp hpo hd.
+Proof. exact HostWf_fns_ok. Qed.
+Check C06_host_fns : forall hp hpo hd, HostWf hp hpo hd -> host_fns_ok hp hpo hd.
+Print Assumptions C06_host_fns.
+
+(* 14. the quirks setters that write host, port and path (the other six are definitionally Url setters:
+   q_set_protocol / q_set_username / q_set_password / q_set_search / q_set_hash; their failure atomicity
+   is in C06_atomic).  On a wfh record without the "/." marker (F-C03-5):
+   - quirks::set_port never panics; a success preserves wfh, leaves scheme / username / password / host /
+     path / query / fragment as they were and stores exactly the port the parser's port state (setter
+     context, default port of the scheme) returns for the argument;
+   - quirks::set_hostname: the new host is the one the parser's host state returns for the argument, the
+     result is host_set_post.  The code itself refuses an empty host on a URL with a port, so the class
+     F-C02-4 cannot arise except through the file / empty-argument shortcut, where the premise is kept;
+   - quirks::set_host: the same, and when the text behind the host yields a port (q_host_port) the port
+     reads back as that port (host_port_post), otherwise the old port stays;
+   - quirks::set_pathname does nothing on an opaque path and otherwise IS Url::set_path with the argument
+     or with '/' in front of it, so C06_frame_path / _noauth / _marker (and the exactness theorems) apply. *)
+Theorem C06_frame_quirks : forall dbg hp hpo hd u, host_fns_ok hp hpo hd -> wfh u ->
+  (has_authority_b u = false -> path_start u = scheme_end u + 1) ->
+  (forall v, exists r, q_set_port dbg u v = Some r)
+  /\ (forall v u', q_set_port dbg u v = Some (u', SOk) ->
+        wfh u' /\ same_ids dbg u u' /\ same_back dbg u u'
+        /\ exists sch rem, scheme u = Some sch /\ parse_port CSetter (default_port sch) v = POk (port u', rem))
+  /\ (forall v u', q_set_hostname dbg hp hpo hd u v = Some (u', SOk) ->
+        exists sch h, scheme u = Some sch
+          /\ ((scheme_type_of sch = STFile /\ v = [] /\ h = HDomain []
+               /\ ((has_authority_b u = true -> port u = None) -> host_set_post dbg hd u u' h))
+              \/ ((exists rem, parse_host hp hpo (scheme_type_of sch) v = POk (h, rem))
+                  /\ host_set_post dbg hd u u' h)))
+  /\ (forall v u', q_set_host dbg hp hpo hd u v = Some (u', SOk) ->
+        exists sch h, scheme u = Some sch
+          /\ ((scheme_type_of sch = STFile /\ v = [] /\ h = HDomain []
+               /\ ((has_authority_b u = true -> port u = None) -> host_set_post dbg hd u u' h))
+              \/ (exists rem, parse_host hp hpo (scheme_type_of sch) v = POk (h, rem)
+                  /\ match q_host_port sch rem with
+                     | None => host_set_post dbg hd u u' h
+                     | Some np => host_port_post dbg hd u u' h np
+                     end)))
+  /\ (forall v u', q_set_pathname dbg u v = Some u' ->
+        if is_opaque_b u then u' = u
+        else exists p, (p = v \/ p = 47 :: v) /\ (usv_list v -> usv_list p) /\ set_path dbg u p = Some u').
+Proof. exact quirks_all. Qed.
+Check C06_frame_quirks : forall dbg hp hpo hd u, host_fns_ok hp hpo hd -> wfh u ->
+  (has_authority_b u = false -> path_start u = scheme_end u + 1) ->
+  (forall v, exists r, q_set_port dbg u v = Some r)
+  /\ (forall v u', q_set_port dbg u v = Some (u', SOk) ->
+        wfh u' /\ same_ids dbg u u' /\ same_back dbg u u'
+        /\ exists sch rem, scheme u = Some sch /\ parse_port CSetter (default_port sch) v = POk (port u', rem))
+  /\ (forall v u', q_set_hostname dbg hp hpo hd u v = Some (u', SOk) ->
+        exists sch h, scheme u = Some sch
+          /\ ((scheme_type_of sch = STFile /\ v = [] /\ h = HDomain []
+               /\ ((has_authority_b u = true -> port u = None) -> host_set_post dbg hd u u' h))
+              \/ ((exists rem, parse_host hp hpo (scheme_type_of sch) v = POk (h, rem))
+                  /\ host_set_post dbg hd u u' h)))
+  /\ (forall v u', q_set_host dbg hp hpo hd u v = Some (u', SOk) ->
+        exists sch h, scheme u = Some sch
+          /\ ((scheme_type_of sch = STFile /\ v = [] /\ h = HDomain []
+               /\ ((has_authority_b u = true -> port u = None) -> host_set_post dbg hd u u' h))
+              \/ (exists rem, parse_host hp hpo (scheme_type_of sch) v = POk (h, rem)
+                  /\ match q_host_port sch rem with
+                     | None => host_set_post dbg hd u u' h
+                     | Some np => host_port_post dbg hd u u' h np
+                     end)))
+  /\ (forall v u', q_set_pathname dbg u v = Some u' ->
+        if is_opaque_b u then u' = u
+        else exists p, (p = v \/ p = 47 :: v) /\ (usv_list v -> usv_list p) /\ set_path dbg u p = Some u').
+Print Assumptions C06_frame_quirks.
+
+(* the hypotheses are met: a host function instance (alphanumeric texts), the record "a://h:80/p?q#f", and one
+   successful call of each: set_host("x:81") -> a://x:81/p?q#f, set_hostname("yz"), set_port("9"),
+   set_pathname("z") -> .../z?q#f, and Url::set_host(Some "x:1") -> a://x:80/p?q#f (the port part is ignored) *)
+Example C06_quirks_inhabited :
+  host_fns_ok qx_hp qx_hp qx_hd /\ wfh qx_u /\ (has_authority_b qx_u = false -> path_start qx_u = scheme_end qx_u + 1)
+  /\ (exists u', q_set_host true qx_hp qx_hp qx_hd qx_u [120; 58; 56; 49] = Some (u', SOk)
+                  /\ ser u' = [97;58;47;47;120;58;56;49;47;112;63;113;35;102])
+  /\ (exists u', q_set_hostname true qx_hp qx_hp qx_hd qx_u [121; 122] = Some (u', SOk)
+                  /\ ser u' = [97;58;47;47;121;122;58;56;48;47;112;63;113;35;102])
+  /\ (exists u', q_set_port true qx_u [57] = Some (u', SOk) /\ ser u' = [97;58;47;47;104;58;57;47;112;63;113;35;102])
+  /\ (exists u', q_set_pathname true qx_u [122] = Some u' /\ ser u' = [97;58;47;47;104;58;56;48;47;122;63;113;35;102])
+  /\ (exists u', set_host true qx_hp qx_hp qx_hd qx_u (Some [120; 58; 49]) = Some (u', SOk)
+                  /\ ser u' = [97;58;47;47;120;58;56;48;47;112;63;113;35;102]).
+Proof. split; [exact qx_fns_ok | exact quirks_inhabited]. Qed.
+
+(* 15. parser agreement, state by state.  For each setter: after a successful call the component reads as C
+   (C06_get), and the parser state that reads this component (context UrlParser), run on the ARGUMENT text
+   standing at that position - behind any serialization prefix, in front of any rest X of the input that
+   starts with a delimiter ending the component - writes exactly C and hands X on.  Arguments are free of
+   the characters that end the component in the parser (the exclusions are exact in this sense: such a
+   character makes the parser stop earlier while the setter encodes it).
+   What is NOT composed here: Parser::parse_url on the whole spliced text (it needs the other components
+   of the old serialization to be fixpoints of their states: C02's L3 classes). *)
+Theorem C06_parser_agreement_set_fragment : forall dbg u x u', wfh u -> set_fragment dbg u (Some x) = Some u' ->
+  exists F, fragment dbg u' = Some (Some F)
+    /\ forall ovr st se ser, nlen ser <= U32_MAX_P ->
+         parse_query_and_fragment ovr CUrlParser st se ser (35 :: x) = POk (ser ++ 35 :: F, None, Some (nlen ser)).
+Proof. intros dbg. exact (agree_fragment dbg (fun _ => [])). Qed.
+Print Assumptions C06_parser_agreement_set_fragment.
+
+(* argument free of '#' *)
+Theorem C06_parser_agreement_set_query : forall dbg u x u', wfh u -> usv_list x -> forallb no_h x = true ->
+  set_query dbg u (Some x) = Some u' ->
+  exists Q, query dbg u' = Some (Some Q)
+    /\ forall se ser X, h_tail X -> nlen ser <= U32_MAX_P -> nlen (ser ++ 63 :: Q) <= U32_MAX_P ->
+         parse_query_and_fragment None CUrlParser (stype u) se ser (63 :: x ++ X)
+         = POk (match after_hash X with
+                | None => (ser ++ 63 :: Q, Some (nlen ser), None)
+                | Some r => ((ser ++ 63 :: Q) ++ 35 :: tnl_text T_FRAGMENT r, Some (nlen ser), Some (nlen (ser ++ 63 :: Q)))
+                end).
+Proof. intros dbg. exact (agree_query dbg (fun _ => [])). Qed.
+Print Assumptions C06_parser_agreement_set_query.
+
+(* any u16; the default port of the scheme reads back as None on both sides *)
+Theorem C06_parser_agreement_set_port : forall dbg u p u', wfh u -> p <= 65535 -> set_port dbg u (Some p) = Some (u', SOk) ->
+  exists sch, scheme u = Some sch
+    /\ forall X, pe_ok X -> parse_port CUrlParser (default_port sch) (decimal p ++ X) = POk (port u', X).
+Proof. intros dbg. exact (agree_port dbg (fun _ => [])). Qed.
+Print Assumptions C06_parser_agreement_set_port.
+
+(* argument non-empty, free of TAB/LF/CR, '@' and the authority delimiters; u0 = any clean username in front *)
+Theorem C06_parser_agreement_set_password : forall dbg u y u', wfh u -> usv_list y -> y <> [] ->
+  forallb (plainc (st_is_special (stype u))) y = true ->
+  set_password dbg u (Some y) = Some (u', SOk) ->
+  exists P, password dbg u' = Some (Some P)
+    /\ forall A u0 X, clean T_USERINFO u0 = true ->
+         (forall count last, scan_last_at (st_is_special (stype u)) X count last = last) ->
+         nlen A + nlen u0 <= U32_MAX_P ->
+         parse_userinfo (stype u) A (u0 ++ 58 :: y ++ 64 :: X) = POk (A ++ u0 ++ 58 :: P ++ [64], nlen A + nlen u0, X).
+Proof. intros dbg. exact (agree_password dbg (fun _ => [])). Qed.
+Print Assumptions C06_parser_agreement_set_password.
+
+(* argument free of TAB/LF/CR, ':', '@' and the authority delimiters; pw = any clean password behind it;
+   the stored username is clean for USERINFO (true of parsed URLs, C05; used only for the code's shortcut
+   "the argument is the stored text") *)
+Theorem C06_parser_agreement_set_username : forall dbg u x u', wfh u -> usv_list x ->
+  forallb (fun c => plainc (st_is_special (stype u)) c && negb (c =? 58)) x = true ->
+  (forall cur, username dbg u = Some cur -> clean T_USERINFO cur = true) ->
+  set_username dbg u x = Some (u', SOk) ->
+  exists U, username dbg u' = Some U
+    /\ forall A pw X, match pw with Some p => clean T_USERINFO p = true /\ p <> [] | None => x <> [] end ->
+         (forall count last, scan_last_at (st_is_special (stype u)) X count last = last) ->
+         nlen A + nlen U <= U32_MAX_P ->
+         parse_userinfo (stype u) A (x ++ pw_text pw ++ 64 :: X) = POk (A ++ U ++ pw_text pw ++ [64], nlen A + nlen U, X).
+Proof. intros dbg. exact (agree_username dbg (fun _ => [])). Qed.
+Print Assumptions C06_parser_agreement_set_username.
+
+(* URL with an authority (C06_frame_path); argument free of '?' and '#', not starting with TAB/LF/CR *)
+Theorem C06_parser_agreement_set_path : forall dbg u p u', wfh u -> has_authority_b u = true -> usv_list p -> auth_end_ok u ->
+  forallb no_qh p = true -> match p with c :: _ => is_tnl c = false | [] => True end ->
+  set_path dbg u p = Some u' ->
+  exists P, path u' = Some P
+    /\ forall X, qh_tail X ->
+         exists hh, parse_path_start dbg CUrlParser (stype u) true (nfirstn (path_start u) (ser u)) (p ++ X)
+                    = POk (nfirstn (path_start u) (ser u) ++ P, hh, X).
+Proof. exact agree_path. Qed.
+Print Assumptions C06_parser_agreement_set_path.
+
+(* scheme other than file (the file host state elides "localhost" and refuses drive letters, Url::set_host does
+   not: F-C02-4); argument free of TAB/LF/CR, ':' '/' '?' '#' '[' ']' (and '\' for a special scheme); no marker *)
+Theorem C06_parser_agreement_set_host : forall dbg hp hpo hd u x u', host_fns_ok hp hpo hd -> wfh u ->
+  (has_authority_b u = false -> path_start u = scheme_end u + 1) ->
+  st_is_file (stype u) = false -> forallb (hostc (st_is_special (stype u))) x = true ->
+  set_host dbg hp hpo hd u (Some x) = Some (u', SOk) ->
+  exists h, ((has_authority_b u = true -> hi_of_host h = HI_None -> port u = None) ->
+             host_str u' = Some (if hi_some (hi_of_host h) then Some (hd h) else None) /\ hosti u' = hi_of_host h)
+    /\ forall X, host_tail (st_is_special (stype u)) X -> parse_host hp hpo (stype u) (x ++ X) = POk (h, X).
+Proof. exact agree_host. Qed.
+Print Assumptions C06_parser_agreement_set_host.
+
+(* the hypotheses are met, and on concrete inputs the composition holds as well: on "a://h:80/p?q#f" each setter
+   succeeds with an argument that needs encoding ("u s", "p:w", "xy", 81, "/a b/../c", "k v", "f g"), and
+   Parser::parse_url on the old serialization with the RAW argument spliced in returns the same record as the
+   setter, field by field (same_as_parse compares all ten fields) *)
+From Coq Require Import String.
+From RU Require Import Proofs.C02_Reach.
+Example C06_parser_agreement_inhabited :
+  forallb (fun c => plainc false c && negb (c =? 58)) (B "u s") = true
+  /\ forallb (plainc false) (B "p:w") = true
+  /\ forallb (hostc false) (B "xy") = true /\ st_is_file (stype qx_u) = false /\ st_is_special (stype qx_u) = false
+  /\ forallb no_qh (B "/a b/../c") = true /\ forallb no_h (B "k v") = true
+  /\ username true qx_u = Some [] /\ has_authority_b qx_u = true
+  /\ same_as_parse (ok_of (set_username true qx_u (B "u s"))) "a://u s@h:80/p?q#f" = true
+  /\ same_as_parse (ok_of (set_password true qx_u (Some (B "p:w")))) "a://:p:w@h:80/p?q#f" = true
+  /\ same_as_parse (ok_of (set_host true qx_hp qx_hp qx_hd qx_u (Some (B "xy")))) "a://xy:80/p?q#f" = true
+  /\ same_as_parse (ok_of (set_port true qx_u (Some 81))) "a://h:81/p?q#f" = true
+  /\ same_as_parse (set_path true qx_u (B "/a b/../c")) "a://h:80/a b/../c?q#f" = true
+  /\ same_as_parse (set_query true qx_u (Some (B "k v"))) "a://h:80/p?k v#f" = true
+  /\ same_as_parse (set_fragment true qx_u (Some (B "f g"))) "a://h:80/p?q#f g" = true
+  /\ (exists u', set_username true qx_u (B "u s") = Some (u', SOk) /\ ser u' = B "a://u%20s@h:80/p?q#f")
+  /\ (exists u', set_path true qx_u (B "/a b/../c") = Some u' /\ ser u' = B "a://h:80/c?q#f").
+Proof. exact agree_inhabited. Qed.
+
+(* 16. auth_end_ok - the premise of C06_frame_path / C06_parser_agreement_set_path - holds of every record
+   Parser::parse_url returns for an input that carries a scheme other than "file", parsed without a base and
+   without an encoding override (the four canonical classes of C02: special with authority, non-special with
+   authority, '/'-led path without authority, opaque path), under C02's hypotheses on the host functions.
+   NOT covered: the file scheme (auth_end_ok is vacuous there, but the scheme text of the result is not
+   tracked), results of joins, and preservation along setter histories. *)
+From RU Require Import Proofs.C02_AuthMain Proofs.C06_AuthEnd.
+Theorem C06_auth_end_parse : forall dbg hp hpo hd input u,
+  HostRT hp hpo hd -> host_above hp hpo hd -> usv_list input -> nonfile_input input = true ->
+  parse_url dbg hp hpo hd None None input = POk u -> auth_end_ok u.
+Proof. exact parse_nonfile_auth_end. Qed.
+Check C06_auth_end_parse : forall dbg hp hpo hd input u,
+  HostRT hp hpo hd -> host_above hp hpo hd -> usv_list input -> nonfile_input input = true ->
+  parse_url dbg hp hpo hd None None input = POk u -> auth_end_ok u.
+Print Assumptions C06_auth_end_parse.
+
+Example C06_auth_end_parse_inhabited :
+  HostRT ex_hp ex_hp ex_hd /\ host_above ex_hp ex_hp ex_hd
+  /\ nonfile_input (B "HTTPS:\\h") = true /\ nonfile_input (B "a://u@h:1/") = true
+  /\ exists u, parse_url true ex_hp ex_hp ex_hd None None (B "HTTPS:\\h") = POk u /\ ser u = B "https://h/".
+Proof.
+  split; [exact (proj1 ex_host_RT)|]. split; [exact (proj2 ex_host_RT)|].
+  split; [vm_compute; reflexivity|]. split; [vm_compute; reflexivity|]. eexists. split; vm_compute; reflexivity.
+Qed.
+
+(* 17. how the state-level agreement of section 15 composes into agreement with Parser::parse_url, for URLs
+   with an authority: if on the text T behind "scheme://" the userinfo, host-and-port, path-start and
+   query-and-fragment states each write the canonical text of their component (ui, h, pt, p, q, f of C02's
+   auth_url) and hand the rest on, then after "//" the parser returns the canonical record
+   auth_url hd sch ui h pt p q f - whatever the RAW text of each component was; and parse_url on
+   scheme "://" T is that run (non-special scheme; special non-file scheme when T does not start with a slash).
+   Each premise is discharged either by C02's state identities (a component left alone: its text is canonical)
+   or by C06_parser_agreement_* / Proofs/C06_Agree.v (the component a setter wrote: raw argument text).
+   NOT proved: that each setter maps the canonical record to the canonical record with the new component
+   (it would make the conclusion read "parse_url (splice) = POk u'"; checked on concrete inputs in
+   C06_parser_agreement_inhabited). *)
+From RU Require Import Proofs.C02_Parts Proofs.C02_Auth Proofs.C06_AgreeUrl.
+Theorem C06_parser_agreement_compose : forall dbg hp hpo hd ovr st sch ui h pt p q f T R1 R2 R3 hh,
+  let A := (sch ++ [58]) ++ [47; 47] in
+  nlen (auth_front hd sch ui h pt) <= U32_MAX_P ->
+  (hi_of_host h = HI_None -> ui = UNone) ->
+  parse_userinfo st A T = POk (A ++ ui_text ui, nlen A + ui_ulen ui, R1) ->
+  parse_host_and_port hp hpo hd CUrlParser st (nlen sch) (A ++ ui_text ui) R1
+    = POk (auth_front hd sch ui h pt, nlen (A ++ ui_text ui) + nlen (hd h), hi_of_host h, pt, R2) ->
+  parse_path_start dbg CUrlParser st true (auth_front hd sch ui h pt) R2 = POk (auth_pre hd sch ui h pt p, hh, R3) ->
+  parse_query_and_fragment ovr CUrlParser st (nlen sch) (auth_pre hd sch ui h pt p) R3
+    = POk (auth_ser hd sch ui h pt p q f, qf_qs (nlen (auth_pre hd sch ui h pt p)) q, qf_fs (nlen (auth_pre hd sch ui h pt p)) q f) ->
+  after_double_slash dbg hp hpo hd ovr CUrlParser st (nlen sch) (sch ++ [58]) T = POk (auth_url hd sch ui h pt p q f).
+Proof. exact ads_compose. Qed.
+Print Assumptions C06_parser_agreement_compose.
+
+Theorem C06_parser_agreement_compose_url : forall dbg hp hpo hd ovr sch T,
+  scheme_canon sch = true -> nlen sch <= U32_MAX_P -> edge_ok (sch ++ 58 :: 47 :: 47 :: T) ->
+  (scheme_type_of sch = STNotSpecial ->
+     parse_url dbg hp hpo hd ovr None (sch ++ 58 :: 47 :: 47 :: T)
+     = after_double_slash dbg hp hpo hd ovr CUrlParser STNotSpecial (nlen sch) (sch ++ [58]) T)
+  /\ (scheme_type_of sch = STSpecialNotFile ->
+      match T with c :: _ => is_tnl c = false /\ is_slash_or_bslash c = false | [] => False end ->
+      parse_url dbg hp hpo hd ovr None (sch ++ 58 :: 47 :: 47 :: T)
+      = after_double_slash dbg hp hpo hd ovr CUrlParser STSpecialNotFile (nlen sch) (sch ++ [58]) T).
+Proof.
+  intros dbg hp hpo hd ovr sch T K Hb He. split.
+  - intros Hs. exact (parse_url_ads_nonspecial dbg hp hpo hd ovr sch T K Hs Hb He).
+  - intros Hs HT. exact (parse_url_ads_special dbg hp hpo hd ovr sch T K Hs Hb He HT).
+Qed.
+Print Assumptions C06_parser_agreement_compose_url.
+
+(* the premises are met by a non-canonical text: "a://" ++ "u s@h:80/p?q#f" (raw username "u s"), and the
+   conclusion: parse_url returns the canonical record whose serialization is "a://u%20s@h:80/p?q#f" *)
+Example C06_parser_agreement_compose_inhabited :
+  let sch := B "a" in let ui := UUser (B "u%20s") in let h := HDomain (B "h") in let pt := Some 80 in
+  let p : pth := Some ([], B "p") in let q := Some (B "q") in let f := Some (B "f") in
+  let A := (sch ++ [58]) ++ [47; 47] in
+  parse_userinfo STNotSpecial A (B "u s@h:80/p?q#f") = POk (A ++ ui_text ui, nlen A + ui_ulen ui, B "h:80/p?q#f")
+  /\ parse_host_and_port ex_hp ex_hp ex_hd CUrlParser STNotSpecial (nlen sch) (A ++ ui_text ui) (B "h:80/p?q#f")
+     = POk (auth_front ex_hd sch ui h pt, nlen (A ++ ui_text ui) + nlen (ex_hd h), hi_of_host h, pt, B "/p?q#f")
+  /\ parse_path_start true CUrlParser STNotSpecial true (auth_front ex_hd sch ui h pt) (B "/p?q#f")
+     = POk (auth_pre ex_hd sch ui h pt p, true, B "?q#f")
+  /\ parse_query_and_fragment None CUrlParser STNotSpecial (nlen sch) (auth_pre ex_hd sch ui h pt p) (B "?q#f")
+     = POk (auth_ser ex_hd sch ui h pt p q f, qf_qs (nlen (auth_pre ex_hd sch ui h pt p)) q,
+            qf_fs (nlen (auth_pre ex_hd sch ui h pt p)) q f)
+  /\ edge_ok (sch ++ 58 :: 47 :: 47 :: B "u s@h:80/p?q#f")
+  /\ parse_url true ex_hp ex_hp ex_hd None None (B "a://u s@h:80/p?q#f") = POk (auth_url ex_hd sch ui h pt p q f)
+  /\ ser (auth_url ex_hd sch ui h pt p q f) = B "a://u%20s@h:80/p?q#f".
+Proof. exact compose_inhabited. Qed.
